@@ -11,7 +11,7 @@
     [E:<exception>] and ends the case. *)
 From Coq Require Import Ascii String List Bool PArith NArith ZArith QArith Qround FMapPositive.
 From PTBase Require Import Exn PyStr PyNum PyVal Wire.
-From P Require Import Assoc GeoState GeoEdit GeoStep.
+From P Require Import Assoc GeoState GeoEdit GeoEdit2 GeoStep.
 Import ListNotations.
 Open Scope list_scope.
 
@@ -83,6 +83,24 @@ Definition parse_q (f : str) : Q :=
   | _ => inject_Z (z_of_str f)
   end.
 Definition parse_oq (f : str) : option Q := if str_eqb f (s2l "N") then None else Some (parse_q f).
+Fixpoint pairs (l : list str) : list (str * str) :=
+  match l with a :: b :: r => (a, b) :: pairs r | _ => [] end.
+Definition keys_of (f : str) : list key2 := pairs (names_of f).
+Definition colon_c : ascii := ":".
+Definition nats_of (f : str) : list nat := match f with [] => [] | _ => map nat_of_str (split_c dot_c f) end.
+Definition natss_of (f : str) : list (list nat) :=
+  match f with [] => [] | _ => map (fun s => match s with [] => [] | _ => map nat_of_str (split_c colon_c s) end) (split_c dot_c f) end.
+Definition pts_of (f : str) : list pt :=
+  match f with [] => [] | _ => map (fun s => match split_c colon_c s with [x; y] => (parse_q x, parse_q y) | _ => p0 end) (split_c dot_c f) end.
+Fixpoint layers_of (a : list str) : list (str * (Q * Q * Q)) :=
+  match a with n :: b :: c :: t :: r => (unhex n, (parse_q b, parse_q c, parse_q t)) :: layers_of r | _ => [] end.
+Definition exn_of (s : str) : exn :=
+  if str_eqb s (s2l "ValueError") then ValueError else if str_eqb s (s2l "KeyError") then KeyError
+  else if str_eqb s (s2l "IndexError") then IndexError else if str_eqb s (s2l "TypeError") then TypeError
+  else if str_eqb s (s2l "AttributeError") then AttributeError else if str_eqb s (s2l "ZeroDivisionError") then ZeroDivisionError
+  else if str_eqb s (s2l "NamingConventionError") then NamingConventionError else PlainException.
+Definition res_nats_of (f : str) : res (list nat) :=
+  match f with "!"%char :: e => Raise (exn_of e) | _ => Ok (nats_of f) end.
 Definition parse_op (f : str) : option op :=
   match split_c comma_c f with
   | k :: a =>
@@ -111,6 +129,19 @@ Definition parse_op (f : str) : option op :=
       else if is "nl"%string then match a with [c] => Some (SetNumLayers (unhex c)) | _ => None end
       else if is "sb"%string then Some SetupBlockNames
       else if is "sk"%string then Some SetupConnNames
+      else if is "cf"%string then match a with [m; b] => Some (CheckFix (keys_of m) (names_of b)) | _ => None end
+      else if is "rd"%string then match a with [n; m; b] => Some (Reduce (names_of n) (keys_of m) (names_of b)) | _ => None end
+      else if is "rf"%string then match a with
+                                  | [n; k; b; c; m] => Some (Refine (names_of n) {| hk := nats_of k; hb := res_nats_of b; hc := nats_of c; hm := keys_of m |})
+                                  | _ => None end
+      else if is "tr"%string then match a with [n] => Some (Triangulate (unhex n)) | _ => None end
+      else if is "de"%string then match a with [n; h; m] => Some (DecomposeCols (names_of n) (natss_of h) (keys_of m)) | _ => None end
+      else if is "ry"%string then match a with [n; f] => Some (RefineLayers (names_of n) (Z.to_pos (z_of_str f))) | _ => None end
+      else if is "cl"%string then Some (CopyLayers (layers_of a))
+      else if is "sn"%string then match a with [t; n] => Some (SnapLayers (parse_q t) (names_of n)) | _ => None end
+      else if is "sr"%string then match a with [n] => Some (SnapNearest (names_of n)) | _ => None end
+      else if is "tl"%string then match a with [x; y; z] => Some (Translate (parse_q x) (parse_q y) (parse_q z)) | _ => None end
+      else if is "mv"%string then match a with [p; c] => Some (MoveNodes (pts_of p) (pts_of c)) | _ => None end
       else None
   | [] => None
   end.
